@@ -67,8 +67,8 @@ class Check:
         self.modules = {}
         kf = os.path.join(VERIF, "known_findings.json")
         self.known = json.load(open(kf))["findings"] if os.path.exists(kf) else []
-        bl = os.path.join(VERIF, "baseline_obligations.json")
-        self.baseline = json.load(open(bl)) if os.path.exists(bl) else {}
+        bl = os.path.join(VERIF, "baseline", pid + ".json")
+        self.baseline = {pid: json.load(open(bl))} if os.path.exists(bl) else {}
 
     # ------------------------------------------------------------------ tree under test
     def module(self, name):
@@ -120,6 +120,23 @@ class Check:
             self.errors.append("zero obligations generated for " + qualname)
             return []
         solve.discharge_all(obs, None, self.baseline.get(self.pid, {}))
+        # vacuity guard: the hypotheses at (some) normal return must be satisfiable
+        posts = [o for o in obs if o.kind == "post"]
+        seen, verdicts = set(), []
+        for o in posts:
+            if o.path in seen or len(seen) >= 3:
+                continue
+            seen.add(o.path)
+            s_ = z3.Solver()
+            s_.set("rlimit", 30_000_000)
+            for h in o.hyps:
+                s_.add(h)
+            verdicts.append(str(s_.check()))
+        if posts:
+            ok = any(v != "unsat" for v in verdicts)
+            self.vacuity.append({"cover": qualname + ":return-reachable", "result": verdicts, "ok": ok})
+            if not ok:
+                self.errors.append("vacuity: no return path of %s has satisfiable hypotheses" % qualname)
         self._aggregate(obs, tag, eng, tir, contract, replayer)
         return obs
 
